@@ -28,6 +28,10 @@
     * `commit_monotone`, `commit_all_synced_partial`, `commit_le_fsynced`   for every schedule of appends and loop iterations commit
                                   offsets never decrease and never exceed the bytes that are in the files and covered by an fsync
                                   (invariant `FsInv`: buffer accounting + rotatePos well-formedness `WF`)
+    * `append_after_stop_refused_or_durable`   any schedule, then the iteration that sees the shutdown request, then any schedule:
+                                  at the end of the stop iteration every byte an Append accepted is in the files and fsynced, and
+                                  every later Append is refused — no acknowledged append is lost (witness: the variant that stops
+                                  accepting only after the loop acknowledges an append nobody will write)
     * `putLev_no_panic`           a writer restarted in the first chunk never takes the out-of-range hashBuff2 slice
   Remaining gaps: see the comment block at the end.
 -/
@@ -477,6 +481,93 @@ theorem commit_le_fsynced (cfg : Cfg) (B : Nat) (ops : List WOp) (s : Sys) (h : 
   rw [syncedEnd_of_older hinv.older]; simp only [writtenEnd]; have := hinv.sle; simp only [SyncedLe] at this; omega
 
 
+/-! ### appends around shutdown: refused or durable -/
+
+/-- when the writer loop is not dirty, nothing written is without an fsync -/
+def CleanSynced (l : LS) : Prop := l.dirty = false → syncedEnd l = writtenEnd l
+
+theorem syncCommit_synced (l : LS) (w : WS) (ts : Nat) (h : OlderSynced l) : syncedEnd (syncCommit l w ts) = writtenEnd l := by
+  rw [syncedEnd_of_older (by simpa [syncCommit, OlderSynced] using h)]
+  simp [syncCommit, FileS.sync, writtenEnd]
+
+theorem written_dirty (s : Sys) : (written s).dirty = false → written s = s.l := by
+  unfold written; split
+  · intro _; rfl
+  · intro h; simp at h
+
+theorem clean_step (cfg : Cfg) (B : Nat) (s : Sys) (op : WOp) (h : FsInv B s) (hc : CleanSynced s.l) : CleanSynced (sysStep cfg s op).l := by
+  cases op with
+  | put inOff body asap ts h1 h2 => exact hc
+  | iter t st =>
+    obtain ⟨_, hold, _, _⟩ := written_fs B s h
+    simp only [sysStep, iter]
+    split
+    · intro _
+      rw [syncCommit_synced _ _ _ hold]; simp [syncCommit, FileS.sync, writtenEnd]
+    · intro hd
+      have := written_dirty s hd
+      rw [this] at hd ⊢
+      exact hc hd
+
+theorem inv_run (cfg : Cfg) (B : Nat) (ops : List WOp) (s : Sys) (h : FsInv B s) (hc : CleanSynced s.l) :
+    FsInv B (run cfg s ops) ∧ CleanSynced (run cfg s ops).l := by
+  induction ops generalizing s with
+  | nil => exact ⟨h, hc⟩
+  | cons op ops ih => exact ih _ (fsInv_step cfg B s op h) (clean_step cfg B s op h hc)
+
+/-- the stop iteration: the writer stops accepting, the buffer is empty, and every byte ever accepted by an Append
+    (`offsetGlobal` counts exactly those) is in the files and covered by an fsync -/
+theorem stop_durable (B : Nat) (s : Sys) (t : Bool) (h : FsInv B s) (hc : CleanSynced s.l) :
+    (iter s t true).w.stopped = true ∧ (iter s t true).w.buff = [] ∧
+    (iter s t true).w.offG = B + syncedEnd (iter s t true).l := by
+  obtain ⟨ho, hold, _, _⟩ := written_fs B s h
+  refine ⟨by simp [iter, takeBuf], by simp [iter, takeBuf], ?_⟩
+  simp only [iter, takeBuf]
+  split
+  · rw [syncCommit_synced _ _ _ hold]; exact ho
+  · rename_i hms
+    have hd : (written s).dirty = false := by
+      simpa [mustSync] using hms
+    have hw := written_dirty s hd
+    rw [hw] at hd ho ⊢
+    rw [hc hd]; exact ho
+
+theorem stopped_refuses (cfg : Cfg) (w : WS) (inOff : Int) (body : Bytes) (asap : Bool) (ts h1 h2 : Nat) (h : w.stopped = true) :
+    putLev cfg w inOff body asap ts h1 h2 = (w, .stopped, w.offG) := by
+  simp [putLev, h]
+
+theorem stopped_run (cfg : Cfg) (ops : List WOp) (s : Sys) (h : s.w.stopped = true) :
+    (run cfg s ops).w.stopped = true ∧ (run cfg s ops).w.offG = s.w.offG := by
+  induction ops generalizing s with
+  | nil => exact ⟨h, rfl⟩
+  | cons op ops ih =>
+    cases op with
+    | put inOff body asap ts h1 h2 =>
+      have e : sysStep cfg s (.put inOff body asap ts h1 h2) = s := by
+        simp [sysStep, stopped_refuses cfg s.w inOff body asap ts h1 h2 h]
+      simp only [run, List.foldl_cons, e]; exact ih s h
+    | iter t st =>
+      have h' : (iter s t st).w.stopped = true := by simp [iter, takeBuf, h]
+      have := ih (iter s t st) h'
+      simp only [run, List.foldl_cons, sysStep] at this ⊢
+      exact ⟨this.1, by rw [this.2]; rfl⟩
+
+/-- **append_after_stop_refused_or_durable.**  Any schedule `ops1` of appends and writer iterations, then the iteration that
+    sees the shutdown request, then any further schedule `ops2` (appends racing with the final write/fsync/commit included —
+    they come after the `replaceBuff` of the stop iteration).  (a) At the end of the stop iteration every byte accepted by an
+    Append so far is in the files and fsynced; (b) every later Append is refused (`stopped`): the append position never moves
+    again.  So an Append is either refused or durably written — none is acknowledged and lost. -/
+theorem append_after_stop_refused_or_durable (cfg : Cfg) (B : Nat) (ops1 ops2 : List WOp) (s0 : Sys) (t : Bool)
+    (h : FsInv B s0) (hc : CleanSynced s0.l) :
+    (iter (run cfg s0 ops1) t true).w.offG = B + syncedEnd (iter (run cfg s0 ops1) t true).l ∧
+    (run cfg (iter (run cfg s0 ops1) t true) ops2).w.stopped = true ∧
+    (run cfg (iter (run cfg s0 ops1) t true) ops2).w.offG = (iter (run cfg s0 ops1) t true).w.offG := by
+  obtain ⟨h1, c1⟩ := inv_run cfg B ops1 s0 h hc
+  obtain ⟨hs, _, hd⟩ := stop_durable B (run cfg s0 ops1) t h1 c1
+  obtain ⟨a, b⟩ := stopped_run cfg ops2 _ hs
+  exact ⟨hd, a, b⟩
+
+
 /-! ### restart inside the first chunk: the Rotate lev never slices hashBuff2 out of range (after the fix) -/
 
 /-- in the first file hashBuff2 covers everything beyond the hash boundary, and offsetLocal is the distance from the file start -/
@@ -652,6 +743,17 @@ example : FsInv 0 sys0 :=
   ⟨⟨by decide, Nat.zero_le _⟩, (fun _ h => by cases h), (Nat.le_refl _), (fun _ h => by cases h)⟩
 set_option maxRecDepth 20000 in
 example : ((run cfgR sys0 opsT).l.commits.map (·.off)) = [116, 24, 12] ∧ syncedEnd (run cfgR sys0 opsT).l = 116 := by decide
+
+
+/-! shutdown window -/
+
+example : CleanSynced sys0.l := fun _ => by decide
+/-- the seeded variant (stopAccept only after the loop): the stop iteration does not set `stopped`; an append made right
+    after it is acknowledged although nothing will ever take the buffer — the property fails for that variant -/
+def iterNoStop (s : Sys) (t : Bool) : Sys := { iter s t true with w := { (iter s t true).w with stopped := s.w.stopped } }
+set_option maxRecDepth 20000 in
+example : (putLev cfgR (iterNoStop (run cfgR sys0 (opsT.take 4)) false).w 24 (encEvent 0x12345 [7]) false 5 0 0).2.1 = .ok ∧
+          (putLev cfgR (iter (run cfgR sys0 (opsT.take 4)) false true).w 24 (encEvent 0x12345 [7]) false 5 0 0).2.1 = .stopped := by decide
 
 
 /-! ### defect fixed by fixes/C18-restart-first-chunk-hash.diff (sig=append-panic): witness on the old behaviour
